@@ -108,6 +108,12 @@ ROLES = {
     # ... the target AND the first iterable of a comprehension, while captured / a class attribute
     "compsamename": "def R0():\n    {N} = [1, 2]\n    def cap0():\n        nonlocal {N}\n        {N} = {N} + [3]\n    cap0()\n    r1 = [{N} * 2 for {N} in {N}]\n    r3 = [[{N} + e1 for e1 in [0]] for {N} in [5, 6] if [{N} for e2 in [1]]]\n    r4 = [[[{N} for e3 in [0]] for e4 in [0]] for {N} in [7]]\n{FI}    return {N}, r1, r3, r4, c0\nprint(R0())\nclass Q0:\n    {N} = [4]\n    r2 = [{N} for {N} in {N}]\nprint(Q0.r2)\n",
     # the identifier names a function that has parameters and holds a comprehension
+    # the identifier names a function / class whose block captures, declares and shadows names (the symtable
+    # module itself tells the module block apart by the NAME of the block)
+    "funccaptured": "def {N}(a1):\n    v1 = a1\n    def in1():\n        nonlocal v1\n        v1 += 1\n        return v1 + a1\n    r1 = [v1 + e1 for e1 in range(2)]\n    return in1(), v1, r1, (lambda: a1)()\n{F}print({N}(1), c0)\n",
+    "funcglobaldecl": "g1 = 1\ndef {N}(p1=2):\n    global g1\n    g1 = g1 + p1\n    h1 = 7\n    def in1():\n        global h1\n        h1 = 'glob'\n        return g1, h1\n    return in1(), h1\n{F}print({N}(), g1, h1, c0)\n",
+    "classnamedbody": "class {N}:\n    a1 = 1\n    b1 = a1 + 1\n    def m1(self, d1=a1):\n        return d1 + self.b1\n    l1 = [a1 for e1 in range(1)]\n    a1 = a1 + 10\n{F}print({N}().m1(), {N}.l1, {N}.a1, c0)\n",
+    "funcinfunc": "def R0(z1):\n    def {N}(y1):\n        w1 = y1 + z1\n        def in1():\n            nonlocal w1\n            w1 += 1\n            return w1\n        return in1() + y1\n    return {N}(1)\n{F}print(R0(2), c0)\n",
     "funcwithcomp": "def {N}(a1, b1=2):\n    return [e1 + a1 for e1 in range(b1)]\n{F}print({N}(1), c0)\n",
 }
 _OL = re.compile(r"__ol_[A-Za-z0-9_]+")
@@ -130,7 +136,9 @@ def cell_excluded(ident, role, feat, switches):
         used |= set({"classname": ["type", "setattr"], "importalias": ["__import__"],
                      "globalbelow": ["globals"], "lambdastar": ["hasattr"], "classkeyword": ["type", "setattr", "classmethod"],
                      "globalbelow_import": ["globals", "__import__"], "lambdawalruscomp": ["hasattr"],
-                     "compsamename": ["type", "setattr"]}.get(role, []))
+                     "compsamename": ["type", "setattr"], "funccaptured": ["hasattr"],
+                     "funcglobaldecl": ["globals", "hasattr"], "classnamedbody": ["type", "setattr"],
+                     "funcinfunc": ["hasattr"]}.get(role, []))
         if role == "classattr":
             return None   # a class attribute does not shadow a builtin for the generated code
         if ident in used:
